@@ -14,6 +14,9 @@ type vHist[S any, Op any] struct {
 	Stop func() bool
 	// All makes run explore every first-level successor (no sharding).
 	All bool
+	// OnNew, if set, is called once for every newly discovered state with the
+	// history that reached it (for observations that are functions of the state).
+	OnNew func(s S, hist []Op)
 }
 
 // run explores breadth-first to the given depth. It returns the number of
@@ -57,17 +60,21 @@ func (e *vHist[S, Op]) run(c *vCtx, depth int) (states, transitions int64, compl
 				e.Apply(s2, op, true, it.h)
 				transitions++
 				k := e.Key(s2)
+				_, known := seen[k]
+				nh := make([]Op, len(it.h)+1)
+				copy(nh, it.h)
+				nh[len(it.h)] = op
+				if !known && e.OnNew != nil {
+					e.OnNew(s2, nh) // observations that depend on the state only
+				}
 				if e.Close != nil {
 					e.Close(s2)
 				}
-				if _, ok := seen[k]; ok {
+				if known {
 					continue
 				}
 				seen[k] = struct{}{}
 				states++
-				nh := make([]Op, len(it.h)+1)
-				copy(nh, it.h)
-				nh[len(it.h)] = op
 				next = append(next, item{nh})
 			}
 		}
